@@ -330,8 +330,7 @@ fn parent(args: &Args) {
         "one simulation = datacake-rpc built with its own `simulation` feature inside turmoil (seeded RNG for schedule and latency): 1-2 servers, 1-3 clients (timeout 2 s / 5 s / none), 3-13 requests per client, sequential and concurrent on one channel including concurrent FIRST use of a lazily connected channel, handler latency 0-3 s, replies 8-100 B, handlers that cut or hold their own link just before replying, and a nemesis task playing 0-8 partition / repair / hold / release events at generated simulated instants; the network heals at the end. History checker per request (unique id, send and completion time in simulated ms): Ok reply carries that request's id and the payload the handler computes for it; handler invocations per id <= 1; every error code is ConnectionError or Timeout; with a timeout T the answer arrives within T (+ one tick). A panic whose first location is under /repo is a violation; inside turmoil/h2/hyper only: that simulation is inconclusive. Non-trivial = a fault event overlapped an in-flight request; distinct = distinct simulations (seed, index).",
     );
     let exe = std::env::current_exe().unwrap();
-    let dir = std::path::PathBuf::from("/verif/harness/target/tmp").join(format!("c14-{}", std::process::id()));
-    let _ = std::fs::create_dir_all(&dir);
+    let dir = scratch_dir("c14");
     if let Some(path) = &args.replay {
         let r = read_replay(path);
         let idx = r["index"].as_u64().unwrap();
